@@ -697,6 +697,8 @@ func gitEngine(c *Ctx) {
 				gitConcurrent(c, op)
 			} else if strings.HasPrefix(op, "git-hostile") {
 				gitHostile(c, strings.Fields(op)[0])
+			} else if strings.HasPrefix(op, "git-warehouses") {
+				gitWarehouses(c, op)
 			}
 		}
 		return
@@ -708,6 +710,7 @@ func gitEngine(c *Ctx) {
 	gitNetExec(c, "gitnet 1")
 	gitConcurrent(c, "git-concurrent")
 	gitHostile(c, "git-hostile")
+	gitWarehouses(c, "git-warehouses")
 	laters := []string{"none", "commit", "branch", "dirty", "detach", "norefs"}
 	filts := []string{losslessUnpackStr, losslessUnpackStr, "uid=mine,gid=mine,mtime=follow,sticky=follow,setid=follow,dev=follow", "uid=5,gid=6,mtime=@99,sticky=follow,setid=follow,dev=follow"}
 	gitExec(c, fmt.Sprintf("git %d none uid=follow,gid=follow,mtime=now,sticky=follow,setid=follow,dev=follow", c.Rand()%100000))
@@ -720,6 +723,69 @@ func gitEngine(c *Ctx) {
 			f = losslessUnpackStr
 		}
 		gitExec(c, fmt.Sprintf("git %d %s %s", c.Rand()%100000, laters[k%len(laters)], f))
+	}
+}
+
+// gitWarehouses: several repositories listed: a stale mirror (healthy, lacks the commit), a directory that is no
+// repository, a missing one — ahead of the repository that holds the commit: the unpack yields the commit's tree.
+// Recipe: "git-warehouses".
+func gitWarehouses(c *Ctx, op string) {
+	c.Begin(op)
+	gitCase++
+	base := filepath.Join(c.Work, fmt.Sprintf("gw%d", gitCase))
+	defer rmrf(base)
+	os.Setenv("RIO_CACHE", filepath.Join(base, "cache"))
+	os.Setenv("RIO_BASE", filepath.Join(base, "riobase"))
+	c.EmitR(op, "skip", "skip")
+	mk := func(name, content string) (string, string) {
+		repo := filepath.Join(base, name)
+		os.MkdirAll(filepath.Join(repo, "d"), 0755)
+		if _, err := gitCmd(repo, "init", "-q", "."); err != nil {
+			return "", ""
+		}
+		os.WriteFile(filepath.Join(repo, "d", "f"), []byte(content), 0644)
+		os.WriteFile(filepath.Join(repo, "tool"), []byte("#!/bin/sh\n"), 0755)
+		gitCmd(repo, "add", "-A")
+		if _, err := gitCmd(repo, "commit", "-q", "-m", name); err != nil {
+			return "", ""
+		}
+		out, _ := gitCmd(repo, "rev-parse", "HEAD")
+		return repo, strings.TrimSpace(out)
+	}
+	stale, _ := mk("stale", "old content")
+	fresh, commit := mk("fresh", "new content")
+	if stale == "" || fresh == "" || commit == "" {
+		c.H("git-warehouses:unavailable")
+		return
+	}
+	os.MkdirAll(filepath.Join(base, "plaindir"), 0755)
+	uf := api.MustParseFilesetUnpackFilter(losslessUnpackStr)
+	addr := func(p string) api.WarehouseLocation { return api.WarehouseLocation("file://" + p) }
+	for k, l := range [][]api.WarehouseLocation{
+		{addr(stale), addr(fresh)},
+		{addr(filepath.Join(stale, ".git")), addr(filepath.Join(fresh, ".git"))},
+		{addr(filepath.Join(base, "missing")), addr(stale), addr(fresh)},
+		{addr(filepath.Join(base, "plaindir")), addr(fresh)},
+		{addr(fresh), addr(stale)},
+	} {
+		for _, pm := range []rio.PlacementMode{rio.Placement_Direct, rio.Placement_Copy} {
+			os.Setenv("RIO_CACHE", filepath.Join(base, fmt.Sprintf("cache%d%s", k, pm)))
+			dst := filepath.Join(base, fmt.Sprintf("dst%d%s", k, pm))
+			_, uerr, upan := safeCall(func() (api.WareID, error) {
+				return gittrans.Unpack(context.Background(), api.WareID{Type: "git", Hash: commit}, dst, uf, pm, l, rio.Monitor{})
+			})
+			c.H(fmt.Sprintf("git-warehouses:%d:%s", k, strings.Fields(resTok(api.WareID{}, uerr, upan))[0]))
+			switch {
+			case upan != "":
+				c.PropFail("git-panic", fmt.Sprintf("unpack with the warehouse list %v panicked: %s", l, upan), op)
+			case uerr != nil:
+				c.PropFail("git-unpack-failed", fmt.Sprintf("the commit is held by a repository of the list %v (a healthy repository without it, or a non-repository, is listed ahead); the unpack (%s) answers %s: %v", l, pm, catOf(uerr), uerr), op)
+			default:
+				if b, e := os.ReadFile(filepath.Join(dst, "d", "f")); e != nil || string(b) != "new content" {
+					c.PropFail("git-content", fmt.Sprintf("unpack with the warehouse list %v delivered d/f = %q", l, b), op)
+				}
+			}
+		}
 	}
 }
 
